@@ -60,3 +60,6 @@ impl<T> VecIter<T> {
                 ==> r.items@ == #[trigger] seq_keep(self.rem(), m),
     { unimplemented!() }
 }
+
+/// `core::cmp::min` at the one type the registry units use it (the translator drops the path prefix); verified, not trusted
+pub fn min(a: u32, b: u32) -> (r: u32) ensures r == (if a <= b { a } else { b }) { if a <= b { a } else { b } }
